@@ -454,6 +454,17 @@ class _LTr:
     def tr(self, n):
         if isinstance(n, ast.Constant) and isinstance(n.value, int) and not isinstance(n.value, bool) and n.value >= 0:
             return ("nat", n.value)
+        if isinstance(n, ast.Constant) and isinstance(n.value, float) and n.value > 0 and n.value != float("inf"):
+            c = pyexpr.const(n.value)             # ("dec", m, e) = m * 10^-e, or ("nat", m)
+            return c if c[0] in ("dec", "nat") else self._gap(n)
+        if _np_call(n, "ptp") and len(n.args) == 1 and not n.keywords:
+            k = _col_of(n.args[0], "contour_points")
+            if k in (0, 1):
+                return ("sub", ("colMax", k), ("colMin", k))          # np.ptp = max - min
+        if (_np_call(n, "max") or _np_call(n, "amax")) and len(n.args) == 1 and not n.keywords \
+                and _same(n.args[0], "np.ptp(contour_points, axis=0)"):
+            # the larger of the two column extents of the (n, 2) array
+            return ("max", ("sub", ("colMax", 0), ("colMin", 0)), ("sub", ("colMax", 1), ("colMin", 1)))
         if isinstance(n, ast.BinOp):
             ops = {ast.Add: "add", ast.Sub: "sub", ast.Mult: "mul", ast.Div: "div"}
             if type(n.op) in ops:
@@ -471,6 +482,9 @@ class _LTr:
             i, k = (ast.unparse(e) for e in n.slice.elts)
             if k in ("0", "1") and i in ("0", "-1"):
                 return ("first" if i == "0" else "last", int(k))
+        return self._gap(n)
+
+    def _gap(self, n):
         raise Gap(f"spline term `{ast.unparse(n)[:60]}`")
 
 
@@ -478,36 +492,89 @@ def lean_lterm(e):
     k = e[0]
     if k in ("colMean", "colMin", "colMax", "first", "last", "nat"):
         return f"(.{k} {e[1]})"
+    if k == "dec":
+        return f"(.dec {e[1]} {e[2]})"
     return f"(.{k} {lean_lterm(e[1])} {lean_lterm(e[2])})"
 
 
-STRIP = ("contour_points = contour_points[np.logical_not((np.isclose(np.roll(contour_points[:, 1], 1), 0)) & "
-         "(np.isclose(np.roll(contour_points[:, 1], -1), 0)))]")
-STRIP2 = [
-    "inner = np.flatnonzero(np.logical_not(np.isclose(contour_points[:, 1], 0)))",
-    "if inner.size:\n    contour_points = contour_points[inner[0] - 1:inner[-1] + 2]",
-]
+def lean_face(ft):
+    """face test ("isclose",) | ("within", lterm) -> Lean `FaceTest`"""
+    return ".isclose" if ft[0] == "isclose" else f"(.within {lean_lterm(ft[1])})"
+
+
+# The face test `F(y)` ("does the ordinate y lie on the face line y = 0?") occurs in three statements; the translator reads
+# WHICH test it is (`FaceTest` of the model) and requires all of them to use the same one:
+#   np.isclose(<y>, 0)                              -> ("isclose",)          numpy's defaults, absolute 1e-8
+#   np.abs(<y>) <= <tolerance term>                 -> ("within", <LTerm>)   tolerance = a term over the array as given
+#   <mask>[...]  with  <mask> = F(contour_points[:, 1]) assigned before   -> the test of the mask
+STRIP2_SLICE = "if inner.size:\n    contour_points = contour_points[inner[0] - 1:inner[-1] + 2]"
+ENDS_RAISE = "raise ValueError('first and last element of contour_points should have y coordinate equal to 0')"
 # statements that give the local name an array of its own (ownership of the vertex array, `ArrOp.copy`)
 COPIES = ["contour_points = contour_points.copy()", "contour_points = np.copy(contour_points)",
           "contour_points = np.array(contour_points)"]
-ENDS = ("if not np.isclose(contour_points[0, 1], 0) or not np.isclose(contour_points[-1, 1], 0):\n"
-        "    raise ValueError('first and last element of contour_points should have y coordinate equal to 0')")
 INTERP1D = ("self._local_depth = scipy.interpolate.interp1d(contour_points[:, 0], contour_points[:, 1], "
             "fill_value='extrapolate')")
 
 
+class _Face:
+    """recognises the face test applied to one selection of the ordinates: "0" / "-1" (one vertex), ":" (the column),
+    "roll1" / "roll-1" (the column rolled by one).  `masks`: local name -> face test of a boolean array over the column"""
+
+    SEL = {"contour_points[0, 1]": "0", "contour_points[-1, 1]": "-1", "contour_points[:, 1]": ":",
+           "np.roll(contour_points[:, 1], 1)": "roll1", "np.roll(contour_points[:, 1], -1)": "roll-1"}
+
+    def __init__(self, tr):
+        self.tr = tr
+        self.masks = {}
+        self.used = set()
+
+    def _sel(self, n):
+        for src, sel in self.SEL.items():
+            if _same(n, src):
+                return sel
+        return None
+
+    def test(self, n):
+        """-> (face test, selection) or None"""
+        if isinstance(n, ast.Expr):
+            n = n.value
+        if _np_call(n, "isclose") and len(n.args) == 2 and not n.keywords and _same(n.args[1], "0"):
+            sel = self._sel(n.args[0])
+            return (("isclose",), sel) if sel else None
+        if isinstance(n, ast.Compare) and len(n.ops) == 1 and isinstance(n.ops[0], ast.LtE) \
+                and _np_call(n.left, "abs") and len(n.left.args) == 1 and not n.left.keywords:
+            sel = self._sel(n.left.args[0])
+            if sel:
+                return ("within", self.tr.tr(n.comparators[0])), sel
+            return None
+        if isinstance(n, ast.Name) and n.id in self.masks:
+            self.used.add(n.id)
+            return self.masks[n.id], ":"
+        if isinstance(n, ast.Subscript) and isinstance(n.value, ast.Name) and n.value.id in self.masks \
+                and ast.unparse(n.slice) in ("0", "-1"):
+            self.used.add(n.value.id)
+            return self.masks[n.value.id], ast.unparse(n.slice)
+        return None
+
+
+def _not_of(n):
+    return n.operand if isinstance(n, ast.UnaryOp) and isinstance(n.op, ast.Not) else None
+
+
 def extract_spline(tree):
-    """-> dict(centre, half_width, width, usable_default, depth) as LTerm tuples, `strip` kind, `array_ops` = what
-    happens to the identity of the array behind the local name `contour_points`, in statement order (`ArrOp` of the model:
-    asarray / view / select / copy / write / store); shape checks of the rest"""
+    """-> dict(centre, half_width, width, usable_default, depth) as LTerm tuples, `strip` kind, `face` = the face test
+    (("isclose",) | ("within", LTerm over the array as given)), `array_ops` = what happens to the identity of the array
+    behind the local name `contour_points`, in statement order (`ArrOp` of the model: asarray / view / select / copy /
+    write / store); shape checks of the rest"""
     cls = _cls(tree, "SplineGroove")
     init = _method(cls, "__init__")
     body = _body(init)
     out = {}
-    state = "validate"
     tr = _LTr()
+    face = _Face(tr)
+    faces = []               # every face test met (all must be the same one)
+    tol_locals = set()
     seen = set()
-    strip2 = 0
     ops = []
     for st in body:
         if _same(st, "contour_points = np.asarray(contour_points, dtype='float64')"):
@@ -525,27 +592,65 @@ def extract_spline(tree):
                 and ("ndim" in ast.unparse(st.test) or "shape" in ast.unparse(st.test)) \
                 and len(st.body) == 1 and isinstance(st.body[0], ast.Raise):
             continue
-        if _dump(st) == _dump(ast.parse(ENDS).body[0]) or (
-                isinstance(st, ast.If) and _dump(st.test) == _dump(ast.parse(ENDS).body[0].test)
-                and len(st.body) == 1 and isinstance(st.body[0], ast.Raise) and not st.orelse):
-            seen.add("ends")
-            continue
-        if _same(st, STRIP):
+        # --- locals of the face test: `<name> = <tolerance term>` and `<name> = F(contour_points[:, 1])`; they are computed
+        #     from the array as given, i.e. before stripping / centring
+        if isinstance(st, ast.Assign) and len(st.targets) == 1 and isinstance(st.targets[0], ast.Name) \
+                and st.targets[0].id not in ("contour_points", "half_width", "inner") and "asarray" in seen \
+                and "strip" not in seen and "inner" not in seen and "centre" not in out:
+            name = st.targets[0].id
+            ft = face.test(st.value)
+            if ft is not None and ft[1] == ":":
+                face.masks[name] = ft[0]
+                continue
+            if name not in tr.locals and name not in face.masks:
+                tr.locals[name] = tr.tr(st.value)       # Gap if it is not a list term
+                tol_locals.add(name)
+                continue
+        # --- validation of the end ordinates: `if not F(y[0]) or not F(y[-1]): raise ValueError(...)`
+        if isinstance(st, ast.If) and isinstance(st.test, ast.BoolOp) and isinstance(st.test.op, ast.Or) \
+                and len(st.test.values) == 2 and len(st.body) == 1 and isinstance(st.body[0], ast.Raise) and not st.orelse \
+                and "strip" not in seen and "inner" not in seen and "ends" not in seen:
+            a, b = (_not_of(v) for v in st.test.values)
+            fa, fb = (face.test(a) if a is not None else None), (face.test(b) if b is not None else None)
+            if fa and fb and fa[1] == "0" and fb[1] == "-1":
+                if not (isinstance(st.body[0].exc, ast.Call) and ast.unparse(st.body[0].exc.func) == "ValueError"):
+                    raise Gap("spline: the end-ordinate validation does not raise ValueError")
+                faces += [fa[0], fb[0]]
+                seen.add("ends")
+                continue
+        # --- legacy stripping: mask "both cyclic neighbours on the face line"
+        if isinstance(st, ast.Assign) and len(st.targets) == 1 and ast.unparse(st.targets[0]) == "contour_points" and isinstance(st.value, ast.Subscript) \
+                and _same(st.value.value, "contour_points") and _np_call(st.value.slice, "logical_not") \
+                and len(st.value.slice.args) == 1 and isinstance(st.value.slice.args[0], ast.BinOp) \
+                and isinstance(st.value.slice.args[0].op, ast.BitAnd):
+            fa, fb = face.test(st.value.slice.args[0].left), face.test(st.value.slice.args[0].right)
+            if not (fa and fb and fa[1] == "roll1" and fb[1] == "roll-1"):
+                raise Gap(f"spline: statement `{ast.unparse(st)[:80]}`")
             if "centre" in out or "strip" in seen:
                 raise Gap("spline: stripping after centring")
+            faces += [fa[0], fb[0]]
             seen.add("strip")
             out["strip"] = "bothNeighbours"
             ops.append("select")
             continue
-        k2 = next((k for k, src in enumerate(STRIP2) if _dump(st) == _dump(ast.parse(src).body[0])), None)
-        if k2 is not None:
-            if "centre" in out or "strip" in seen or k2 != strip2:
+        # --- stripping of the face runs: `inner = np.flatnonzero(np.logical_not(F(y)))`, then the slice
+        if isinstance(st, ast.Assign) and len(st.targets) == 1 and ast.unparse(st.targets[0]) == "inner" and _np_call(st.value, "flatnonzero") \
+                and len(st.value.args) == 1 and not st.value.keywords and _np_call(st.value.args[0], "logical_not") \
+                and len(st.value.args[0].args) == 1 and not st.value.args[0].keywords:
+            fa = face.test(st.value.args[0].args[0])
+            if not (fa and fa[1] == ":"):
+                raise Gap(f"spline: statement `{ast.unparse(st)[:80]}`")
+            if "centre" in out or "strip" in seen or "inner" in seen:
                 raise Gap("spline: stripping order")
-            strip2 += 1
-            if strip2 == len(STRIP2):
-                seen.add("strip")
-                out["strip"] = "faceRuns"
-                ops.append("view")
+            faces.append(fa[0])
+            seen.add("inner")
+            continue
+        if _dump(st) == _dump(ast.parse(STRIP2_SLICE).body[0]):
+            if "centre" in out or "strip" in seen or "inner" not in seen:
+                raise Gap("spline: stripping order")
+            seen.add("strip")
+            out["strip"] = "faceRuns"
+            ops.append("view")
             continue
         if isinstance(st, ast.AugAssign) and isinstance(st.op, ast.Sub) and _col_of(st.target, "contour_points") == 0:
             if "centre" in out or "strip" not in seen:
@@ -600,6 +705,18 @@ def extract_spline(tree):
         m = _method(cls, prop)
         if not (len(_body(m)) == 1 and _same(_body(m)[0], f"return self.{attr}")):
             raise Gap(f"spline: property {prop}")
+    if any(f != faces[0] for f in faces):
+        raise Gap("spline: the face tests of the end-ordinate validation and of the boundary stripping differ: "
+                  + " / ".join(sorted({lean_face(f) for f in faces})))
+    for name in sorted(set(face.masks) - face.used):
+        raise Gap(f"spline: face mask `{name}` is not what the validation / stripping read")
+    out["face"] = faces[0]
+    used_locals = set()
+    if faces[0][0] == "within":
+        # which tolerance locals the face test reads (a local that is bound but never read is no part of the model)
+        used_locals = {n.id for st in body for n in ast.walk(st) if isinstance(n, ast.Name) and isinstance(n.ctx, ast.Load)}
+    for name in sorted(tol_locals - used_locals):
+        raise Gap(f"spline: local `{name}` is bound but not read")
     out["array_ops"] = ops
     return out
 
@@ -775,6 +892,9 @@ def emit(ctx):
         for k in ("centre", "half_width", "width", "usable_default", "depth"):
             L.append(f"def spline_{k} : LTerm := {lean_lterm(sp[k])}")
         L.append(f"def spline_strip : StripKind := .{sp['strip']}")
+        L.append("/-- how `SplineGroove.__init__` decides that an ordinate lies on the face line (one test for the validation of the "
+                 "end ordinates and for the boundary stripping; a tolerance term is evaluated on the array as given) -/")
+        L.append(f"def spline_face : FaceTest := {lean_face(sp['face'])}")
         L.append("/-- what happens to the array behind the local name `contour_points`, in statement order -/")
         L.append("def spline_array_ops : List ArrOp := [" + ", ".join("." + o for o in sp["array_ops"]) + "]")
         L.append("def spline_shape_ok : Bool := true")
@@ -783,6 +903,7 @@ def emit(ctx):
         for k in ("centre", "half_width", "width", "usable_default", "depth"):
             L.append(f"def spline_{k} : LTerm := (.nat 0)")
         L.append("def spline_strip : StripKind := .bothNeighbours")
+        L.append("def spline_face : FaceTest := .isclose")
         L.append("def spline_array_ops : List ArrOp := []")
         L.append("def spline_shape_ok : Bool := false")
     L.append("")
